@@ -17,7 +17,7 @@
 (* Sample content is never stored: segs holds *references* [src, a, b) =    *)
 (* "ids a..b-1 come from write event src" (src = 0: fill values).           *)
 (***************************************************************************)
-EXTENDS Integers, Sequences, FiniteSets, SigDef, Tmap
+EXTENDS Integers, Sequences, FiniteSets, SigDef, Tmap, StatsContract
 
 SrcTok0 == <<"h:24:5b4486e46d780d11", "s:jls", "s:-", "s:1.0.0", "s:-">>   \* SOURCE_0 of src/writer.c
 Sig0Name == "h:24:4e42a77955b956d0"                                       \* "global_annotation_signal"
@@ -37,7 +37,7 @@ NewSig(ev) ==
      name |-> AbsentToEmpty(ev.name), units |-> AbsentToEmpty(ev.units),
      has |-> FALSE, first |-> 0, next |-> 0, segs |-> <<>>,
      reg |-> 0, nblk |-> 0, synth |-> {},
-     annos |-> <<>>, utcs |-> <<>>, i2t |-> {}, t2i |-> {}]
+     annos |-> <<>>, utcs |-> <<>>, i2t |-> {}, t2i |-> {}, gen |-> "", gp |-> 0]
 
 Sig0Ev == [id |-> 0, src |-> 0, st |-> 1, dt |-> "f32", bits |-> 32, rate |-> 0, spd |-> 10, sdf |-> 10, eps |-> 10,
            sumdf |-> 10, adf |-> 100, udf |-> 100, name |-> Sig0Name, units |-> "s:"]
@@ -70,7 +70,9 @@ OmitBlocks(g, nblk1) ==
 
 FsrUpd(g, ev) ==
     IF ev.n = 0 THEN g
-    ELSE LET g1 == IF ~g.has THEN [g EXCEPT !.has = TRUE, !.first = ev.id, !.next = ev.id] ELSE g
+    ELSE LET g0 == [g EXCEPT !.gen = IF g.gen = "" THEN ev.gen ELSE IF g.gen = ev.gen /\ g.gp = ev.gp THEN g.gen ELSE "mixed",
+                             !.gp = IF g.gen = "" THEN ev.gp ELSE g.gp]
+             g1 == IF ~g.has THEN [g0 EXCEPT !.has = TRUE, !.first = ev.id, !.next = ev.id] ELSE g0
              hi == ev.id + ev.n
              g2 == IF ev.id = g1.next THEN [g1 EXCEPT !.segs = Append(@, [src |-> ev.q, a |-> ev.id, b |-> hi]), !.next = hi]
                    ELSE IF ev.id > g1.next THEN
@@ -203,6 +205,31 @@ RdSignalVerdict(S, ev) ==
     ELSE IF ev.rc # 0 THEN "signal read failed"
     ELSE IF ev.def = SigRec(S.sigs[Idx(S.sigs, ev.id)]) THEN "" ELSE "signal definition differs from the one written (as normalised)"
 
+\* ---- statistics (C02)
+RECURSIVE LevelFrom(_, _, _, _, _)
+LevelFrom(lvl, m, incr, dur, sumdf) == IF incr >= m /\ dur >= 25 * m /\ lvl < 15 THEN LevelFrom(lvl + 1, m * sumdf, incr, dur, sumdf) ELSE lvl
+LevelFor(g, incr, cnt) == LevelFrom(0, g.norm.sdf, incr, incr * cnt, g.norm.sumdf)
+WideSummary(dt) == dt \in {"i32", "i64", "u32", "u64", "f64"}
+HasFill(g, a, b) == \E i \in 1..Len(g.segs) : g.segs[i].src = 0 /\ g.segs[i].a < b /\ g.segs[i].b > a
+
+RdStatsVerdict(S, ev) ==
+    IF ~ev.g THEN "wrote outside the caller's buffer"
+    ELSE IF ~FsrAccept(S, ev) THEN (IF ev.rc = 0 THEN "statistics of an undefined or non-FSR signal" ELSE "")
+    ELSE LET g == S.sigs[Idx(S.sigs, ev.sig)]
+             a == g.first + ev.start
+         IN
+        IF ev.incr <= 0 THEN (IF ev.rc = 0 THEN "statistics with a non-positive increment succeeded" ELSE "")
+        ELSE IF ev.cnt <= 0 THEN ""
+        ELSE IF ev.start < 0 \/ ev.start + ev.incr * ev.cnt > Length(g)
+             THEN (IF ev.rc = 0 THEN "statistics outside the signal succeeded" ELSE "")
+        ELSE IF g.bits = 24 THEN ""                                          \* not a type the reader can summarise
+        ELSE IF g.bits = 64 /\ ev.rc # 0 THEN ""      \* level-0 statistics of 64-bit types (also needed for unaligned edges) are unsupported
+        ELSE IF ev.rc # 0 THEN "statistics request inside the signal failed"
+        ELSE IF Len(ev.ent) # ev.cnt THEN "wrong number of statistics entries"
+        ELSE IF g.gen \notin {"ramp", "bit"} \/ HasFill(g, a, a + ev.incr * ev.cnt) THEN ""
+        ELSE IF ev.cnt = 1 THEN SingleVerdict(g.gen, g.gp, a, a + ev.incr, ev.ent[1], g.norm.sdf, WideSummary(g.dt))
+        ELSE MultiVerdict(g.gen, g.gp, a, ev.incr, ev.ent, g.first, g.next, WideSummary(g.dt))
+
 \* ---- which blocks were omitted (C15): never the first; on request exactly the blocks the
 \* documented one-block delay prescribes (types above 8 bits; below, constant detection rules)
 IdxZerosVerdict(S, ev) ==
@@ -271,6 +298,7 @@ Verdict(S, ev) ==
       [] ev.e = "RdSources" -> RdSourcesVerdict(S, ev)
       [] ev.e = "RdSignals" -> RdSignalsVerdict(S, ev)
       [] ev.e = "RdSignal"  -> RdSignalVerdict(S, ev)
+      [] ev.e = "RdStats"   -> RdStatsVerdict(S, ev)
       [] ev.e = "SumCmp"    -> IF ev.a = ev.b THEN "" ELSE "stored summaries differ between omission on and off"
       [] ev.e = "IdxZeros"  -> IdxZerosVerdict(S, ev)
       [] ev.e = "I2T"       -> I2TVerdict(S, ev)
